@@ -95,7 +95,7 @@ def _residual_ok(A, B, I):
     S = A[I]
     res = np.abs(A - B @ S).max()
     tol = 64. * (A.shape[1] + len(I)) * EPS * np.abs(A).max() * max(1., np.abs(B).max())
-    return (res <= tol), res, tol
+    return bool(np.all(np.isfinite(B)) and res <= tol), res, tol      # (an infinite B would make tol infinite)
 
 
 @clause('C08.maxvol.contract', funcs=('maxvol.maxvol',))
@@ -122,7 +122,7 @@ def maxvol_contract(n, r, nz, nd, ints, lc, seed, e, k):
     cS = np.linalg.cond(S)
     errI = np.abs(B[I] - np.eye(r)).max()
     tolI = 64. * r * EPS * cS
-    if errI > tolI:
+    if not errI <= tolI:
         return FAIL(f'B[I] != identity: {errI:.3e} > {tolI:.3e} (cond(A[I]) {cS:.1e})')
     if k >= KBIG:
         mb = np.abs(B).max()
@@ -130,7 +130,7 @@ def maxvol_contract(n, r, nz, nd, ints, lc, seed, e, k):
             return FAIL(f'max|B| = {mb!r} > e = {e} although the iteration limit {k} is not hit')
         Bo = np.linalg.solve(S.T, A.T).T
         mo = np.abs(Bo).max()
-        if mo > e * (1. + 64. * r * EPS * cS):
+        if not mo <= e * (1. + 64. * r * EPS * cS):
             return FAIL(f'rows I are not dominant: max|A A[I]^-1| = {mo!r} > e = {e}')
         B0 = teneva.maxvol(A.copy(), e, 0)[1]          # classification only: was any row swap needed?
         return PASS if np.abs(B0).max() > e else TRIVIAL('the LU start is already dominant (no row swap needed)')
@@ -223,12 +223,12 @@ def rect_contract(n, r, nz, nd, ints, lc, seed, e, dr_min, dr_max, e0, k0):
         return FAIL(f'B[I] != identity: max dev {np.abs(B[I] - np.eye(m)).max():.3e}')
     if m < hi:
         nb = np.linalg.norm(B, axis=1).max()
-        if nb > e * (1. + 1e-10):
+        if not nb <= e * (1. + 1e-10):
             return FAIL(f'stopped at |I| = {m} < {hi} but a row of B has norm {nb!r} > e = {e}')
         S = A[I]
         Bo = A @ np.linalg.pinv(S)
         no = np.linalg.norm(Bo, axis=1).max()
-        if no > e * (1. + 1e-10 + 64. * m * EPS * np.linalg.cond(S)):
+        if not no <= e * (1. + 1e-10 + 64. * m * EPS * np.linalg.cond(S)):
             return FAIL(f'stopped at |I| = {m} < {hi} but a row of A pinv(A[I]) has norm {no!r} > e = {e}')
         return PASS
     return PASS
